@@ -635,5 +635,8 @@ func parsePortsFile(openFile openFileFunc) (result []*scan.PortRange, err error)
 		}
 		result = append(result, ports)
 	}
+	if err = scanner.Err(); err != nil {
+		return nil, err
+	}
 	return
 }
